@@ -287,6 +287,17 @@ def run(ctx):
     wide = [random_case(wide_rng, 40, shape=sh) for sh in ((3, 2), (4, 2), (5, 3), (6, 4), (3, 3), (4, 3)) for _ in range(20 if ctx.quick() else 200)]
     process(ctx, wide)
     ctx.count("histories_with_as_many_or_more_reactions_than_slots", len(wide))
+    # requested times far beyond (and far before) the queue: further than a 32-bit integer can count grid steps
+    far = []
+    for nrx, ncols, dt, t0 in ((1, 4, Fraction(1), Fraction(0)), (2, 3, Fraction(1, 4), Fraction(3, 2)), (1, 2, Fraction(1, 2), Fraction(-1))):
+        for big in (10**9, 3 * 10**9, 2**31, 2**31 - 1, 2**33 + 5, 10**15, -3 * 10**9, -10**15):
+            ops = [["add", 0, str(t0 + dt + big * dt), 0, "1"], ["add", 0, str(t0 + dt + dt), nrx - 1, "2"], ["dump", 0]]
+            for _ in range(ncols + 1):
+                ops += [["read", 0], ["advance", 0]]
+            ops.append(["dump", 0])
+            far.append({"nrx": nrx, "ncols": ncols, "dt": str(dt), "t0": str(t0), "seed": len(far), "ops": ops})
+    process(ctx, far)
+    ctx.count("histories_with_far_away_requested_times", len(far))
 
 
 def replay(ctx, obj):
